@@ -98,7 +98,7 @@ func runC16(w *W) {
 	so := tgenOpts{MaxStructs: 1 + t.Intn(4, "sch.structs"), MaxFields: 1 + t.Intn(8, "sch.fields"), MaxDepth: 1 + t.Intn(3, "sch.depth"),
 		BigIDs: t.Chance(1, 2, "sch.bigids"), ManyFields: t.Chance(1, 5, "sch.wide"), Requiredness: true, Recursive: t.Chance(1, 3, "sch.rec"),
 		Defaults: mode != 2 && t.Chance(1, 2, "sch.defaults"), OptionalDefaults: t.Chance(1, 25, "sch.optdefaults"), ConstDefaults: t.Chance(1, 3, "sch.constdefaults"),
-		Aliases: mode != 2 && t.Chance(1, 20, "sch.alias"), NoBinary: true}
+		Aliases: mode != 2 && t.Chance(1, 20, "sch.alias"), NoBinary: true, StructMapKeys: mode == 2 && t.Chance(1, 2, "sch.structkeys")}
 	// deep worlds: long chains of nested structs with wide requires-bitmaps over a small bitmap arena, so
 	// that one conversion outgrows the arena several times while outer levels are still open
 	deep := mode == 0 && t.Chance(1, 8, "c16.deep")
@@ -458,7 +458,14 @@ func c16Cut(w *W, sch *TSchema, desc *thrift.TypeDescriptor, val *TVal, wo write
 				if er != "" {
 					return nil, er
 				}
-				o.Keys = append(o.Keys, v.Keys[i])
+				k := v.Keys[i]
+				if k.T.Kind == tSTRUCT {
+					var ke string
+					if k, ke = model(k); ke != "" {
+						return nil, ke
+					}
+				}
+				o.Keys = append(o.Keys, k)
 				o.Vals = append(o.Vals, c)
 			}
 			return o, ""
